@@ -382,7 +382,7 @@ def run_job(job, packages, known, replay_dir):
     rec = dict(label=job['label'], prop=job['prop'], harness=list(job['harness']), params=job['params'], paths=0,
                queries=0, solver_s=0.0, obligations=[], vacuity_witnesses=0, status='ok', folded=0,
                known=[], violations=[], inconclusive=[], errors=[], forked_sites=[], kernels={}, assumptions=[],
-               samples=[], max_abs=0, stub_assumptions=[])
+               samples=[], max_abs=0, stub_assumptions=[], witnesses=[])
     timeout_ms = int(job.get('timeout_s', 120) * 1000)
     max_paths = job.get('max_paths', 20000)
     if getattr(fn, 'custom', False):
@@ -438,11 +438,19 @@ def run_job(job, packages, known, replay_dir):
             s, r, dt = _solve(base, None, timeout_ms)
             rec['queries'] += 1
             rec['solver_s'] += dt
+            wit = None
             if r == 'sat':
                 rec['vacuity_witnesses'] += 1
+                if len(rec['witnesses']) < job.get('witnesses', 1):
+                    try:
+                        wit = dict(property=job['prop'], harness=list(job['harness']), params=job['params'], label=job['label'],
+                                   goal='*', inputs=extract_inputs(s.model()), tags={}, notes=[])
+                    except Exception:
+                        wit = None
             elif r == 'unsat':
                 rec['errors'].append('vacuous path (assumptions unsatisfiable after the run)')
                 continue
+            path_clean = True
             for (gname, cond) in env.goals:
                 c = to_bool(cond)
                 ob = goal_names.setdefault(gname, dict(name=gname, verdict='unsat', queries=0, folded=0, time_s=0.0))
@@ -460,6 +468,7 @@ def run_job(job, packages, known, replay_dir):
                     rec['solver_s'] += dt
                     if r == 'unsat':
                         break
+                    path_clean = False
                     if r != 'sat':
                         ob['verdict'] = 'unknown'
                         rec['inconclusive'].append(dict(goal=gname, reason=s.reason_unknown(), time_s=round(dt, 2)))
@@ -494,6 +503,10 @@ def run_job(job, packages, known, replay_dir):
                 if len(rec['samples']) < 2:
                     rec['samples'].append(dict(harness=job['label'], goal=gname, path_decisions=len(ctx.prefix),
                                                verdict=ob['verdict'], bound=job['params']))
+            if wit is not None and path_clean and not stop:
+                # every goal of this path was discharged for all inputs: the witness must satisfy all of them on the real build
+                wit['goals'] = [g for g, _ in env.goals]
+                rec['witnesses'].append(wit)
             rec['max_abs'] = max(rec['max_abs'], STORE.max_abs)
             rec['assumptions'] = sorted(set(rec['assumptions']) | set(a for a in env.assumptions if a))
     except PathLimit:
@@ -676,6 +689,34 @@ def judge(cex, seeds=48):
             return dict(status='reproduced', note='%s constant over %d seeds: %s' % (obs, seeds, sorted(seen[obs])))
         return dict(status='not-reproduced', note='%s varied or not applicable' % obs)
     return dict(status='not-reproduced', detail=detail)
+
+
+def judge_all(cex, seeds=3):
+    """witness validation: run the harness over the real build on a model of a path whose goals were all discharged;
+    returns the goals that are false there (the encoding and the real build disagree) -- empty when they agree"""
+    import importlib
+    import warnings
+    warnings.filterwarnings('ignore')
+    mod = importlib.import_module('harness.' + cex['harness'][0])
+    fn = getattr(mod, cex['harness'][1])
+    uses_rng = getattr(fn, 'uses_rng', False)
+    variation = getattr(fn, 'variation_goals', {})
+    bad, checked = [], 0
+    for seed in range(seeds if uses_rng else 1):
+        env = ConcreteEnv(cex['inputs'], real_modules)
+        env.seed(seed)
+        fn(env, **cex['params'])
+        if env.assumption_failed:
+            return dict(status='precondition-violated', which=env.assumption_failed, checked=0, false_goals=[])
+        for n, c in env.goals:
+            if n in variation:
+                continue
+            checked += 1
+            if not bool(to_bool(c)):
+                bad.append(n)
+        if bad:
+            break
+    return dict(status='diverged' if bad else 'agreed', false_goals=sorted(set(bad))[:6], checked=checked)
 
 
 def _jsonable(v):
